@@ -264,4 +264,4 @@ def fixed_cases() -> list:
     ]
 
 
-ENGINES = [Engine('sequences', gen.sequences, check, quick=90, thorough=2000, batch=15, fixed_cases=fixed_cases, quick_s=40.0, thorough_s=900.0)]
+ENGINES = [Engine('sequences', gen.sequences, check, quick=90, thorough=2000, batch=15, fixed_cases=fixed_cases, quick_s=22.0, thorough_s=900.0)]
